@@ -597,6 +597,65 @@ def kill_monitor(cmd, blk):
     return None, None
 
 
+KSIG_VALID = list(range(0, 65))                                                   # 0 (probe), 1..31, SIGRTMIN-2 .. SIGRTMAX
+KSIG_INVALID = [-1, -2, -15, -64, 65, 66, 127, 128, 255, 256, 4096, 65536, 2 ** 31 - 1, -2 ** 31]   # 65 = NSIG/_NSIG on Linux
+KSIG_FATAL_BY_POSIX = [1, 2, 3, 6, 9, 13, 14, 15, 10, 12]                         # sanity of the reference child only
+
+
+def ksig_monitor(cmd, blk):
+    """uv_process_kill / uv_kill(pid) / uv_kill(-pid) with any number: the return value is kill(2)'s own answer for that
+    number, and the child meets the fate a child signalled by kill(2) itself met (exit_cb names that very signal /
+    stopped / still running); exactly one exit_cb, child reaped."""
+    _, how, sig = cmd.split(); sig = int(sig)
+    if "end" not in blk: return "spawn-crash", f"harness died: {blk[-3:]}"
+    if not blk or not blk[0].startswith("ref ") or any(l.startswith("spawn-error") for l in blk):
+        return "generator", f"`{cmd}`: no reference / spawn of /bin/sleep failed: {blk[:3]}"
+    ref = blk[0].split()
+    rrc, rfate = ref[1], ref[2:]
+    if (0 <= sig <= 64) != (rrc == "0") or (sig in KSIG_FATAL_BY_POSIX and rfate != ["term", "0", str(sig)]):
+        return "generator", f"`{cmd}`: this kernel's own answer is unexpected, not judging: {blk[0]}"
+    exp = [blk[0], "probe 0", f"kill {rrc}"]
+    if rrc == "0" and rfate[0] == "term":
+        exp += [f"cb 0 {rfate[1]} {rfate[2]} wp=ECHILD active=0", "settled dead"]
+    else:
+        exp += [f"settled alive {rfate[1] if rrc == '0' else 'run'}", "cleanup", "cb 0 0 9 wp=ECHILD active=0"]
+    exp += ["after ESRCH"]
+    if rrc != "0":                       # on a pid that is gone the kernel may look for the process first (ESRCH): any answer, the same one
+        dl = next((l.split() for l in blk if l.startswith("dead ")), ["dead", "?", "??"])
+        exp += [f"dead {dl[2]} {dl[2]}"]
+    exp += ["zombie ECHILD", "end"]
+    if blk != exp:
+        k = next((i for i in range(min(len(blk), len(exp))) if blk[i] != exp[i]), min(len(blk), len(exp)))
+        fn = {"process": "uv_process_kill(handle, %d)", "pid": "uv_kill(pid, %d)", "grp": "uv_kill(-pid, %d) on a detached child"}[how] % sig
+        return "kill-delivery", (f"{fn}: kill(2) itself answers {rrc} and a child signalled that way "
+                                 f"{'is terminated (status %s, signal %s)' % (rfate[1], rfate[2]) if rfate[0] == 'term' else 'stays alive (' + rfate[1] + ')'}; "
+                                 f"through libuv: `{blk[k] if k < len(blk) else None}` where `{exp[k] if k < len(exp) else None}` was expected "
+                                 f"(trace {blk[1:]})")
+    return None, None
+
+
+def kpid_monitor(cmd, blk):
+    w = blk[0].split() if blk else []
+    if len(w) != 3 or w[0] != "kpid" or blk[-1] != "end": return "spawn-crash", f"harness died: {blk[-3:]}"
+    if w[1] != w[2]: return "kill-delivery", f"`{cmd}`: uv_kill returned {w[1]}, kill(2) answers {w[2]}"
+    return None, None
+
+
+def ksig_cases(ctx, rng):
+    """every number kill(2) accepts and a set it refuses, through each of the three ways to name the victim"""
+    cmds = []
+    for sg in KSIG_VALID + KSIG_INVALID + [rng.range(66, 100000), -rng.range(2, 100000)]:
+        hows = ["process", "pid", "grp"]
+        if ctx.quick and sg not in (0, 1, 9, 15, 19, 31, 32, 34, 63, 64, 65, -1):
+            hows = [hows[(sg + rng.below(3)) % 3], hows[(sg + 1 + rng.below(2)) % 3]]
+            if hows[0] == hows[1]: hows = hows[:1]
+        for how in hows:
+            cmds.append(f"ksig {how} {sg}")
+    for sg in [0] + KSIG_INVALID:
+        cmds += [f"kpid self {sg}", f"kpid none {sg}"]
+    return cmds
+
+
 def run_spawn(ctx, exe, cmds):
     """one harness process for the whole list; returns False after a violation"""
     td = ctx.tmp / "c12spawn"; td.mkdir(exist_ok=True)
@@ -621,7 +680,7 @@ def run_spawn(ctx, exe, cmds):
                              {"mode": "spawn", "cmds": [c]}):
                 return False
             continue
-        sig, what = {"layout": layout_monitor, "many": many_monitor, "chld": many_monitor, "ids": ids_monitor, "opts": opts_monitor, "kill": kill_monitor,
+        sig, what = {"layout": layout_monitor, "many": many_monitor, "chld": many_monitor, "ids": ids_monitor, "opts": opts_monitor, "kill": kill_monitor, "ksig": ksig_monitor, "kpid": kpid_monitor,
                      "echo": lambda c, b: (None, None) if b == ["cb 0 7 0 wp=ECHILD active=0", "echo ok", "zombie ECHILD", "end"]
                      else ("spawn-pipe-direction", f"echo through stdin/stdout pipes: {b}")}[w](c, blk)
         if sig == "generator":
@@ -638,6 +697,8 @@ def run_spawn(ctx, exe, cmds):
                     ctx.nontrivial("L" + hashlib.sha1(c.encode()).hexdigest()[:12])
             elif w in ("many", "chld") and len(c.split()) > 4:
                 ctx.nontrivial("M" + hashlib.sha1(c.encode()).hexdigest()[:12])
+            elif w == "ksig" and blk[0].split()[1] == "0" and int(c.split()[2]) != 0:
+                ctx.nontrivial("K" + c.split()[1] + c.split()[2] + blk[0].split()[2])      # a number the kernel really delivered
     return True
 
 
@@ -709,6 +770,7 @@ def spawn_cases(ctx, rng):
     for how in ("process", "pid"):
         for sg in (15, 9, rng.choice([1, 2, 10, 12])):
             cmds.append(f"kill {how} {sg}")
+    cmds += ksig_cases(ctx, rng)
     for n in [1, 2, 12] + [rng.range(2, 16) for _ in range(ctx.scale(4, 60))]:
         cmds.append(gen_many(rng, n))
     # the application's own SIGCHLD watchers (one-shot / normal; started before the first spawn, stopped or started
@@ -769,6 +831,10 @@ def run(ctx):
                                    f"non-existent program), {sum(1 for c in cmds if c.startswith('many'))} multi-child runs " \
                                    f"({sum(len(c.split()) - 2 for c in cmds if c.startswith('many'))} children), kill/echo/options"
         ctx.sample({"spawn": cmds[5]})
+        ks = [c for c in cmds if c.startswith("ksig")]
+        ctx.notes["kill_range"] = (f"{len(ks)} uv_process_kill/uv_kill(pid)/uv_kill(-pid) calls over the numbers 0..64 and "
+                                   f"{len(KSIG_INVALID) + 2} refused ones ({len(set(c.split()[2] for c in ks))} distinct numbers), each judged by "
+                                   f"kill(2)'s own return value and the fate of a reference child signalled without libuv")
     if ctx.broken and not ctx.violations:
         ctx.log("obligation broken; searching for a failing input with the monitors")
         srng = SplitMix(ctx.seed + 4242)
